@@ -33,8 +33,8 @@ ASSUMPTIONS = [
     'taken from the program\'s own error message ("Every symbol used as a path component of a path must be defined '
     'as a string", with the chain of definitions it was reached through): such a reference, direct or through any '
     'number of string definitions, is a type error',
+    'the same for the STRING of `% STRING` ("A program name must be defined in terms of string.")',
     'left out because the manual leaves it open ("converted ... by using a naked SYMBOL-REFERENCE (in most places)"): '
-    'list symbols, and strings built from list/path symbols, inside program names; '
     'text glued directly to a path reference (@[P]@x); INTEGERs that are not '
     'integer literals; a list that renders as an integer inside an INTEGER',
     'a path reference (direct, or at the start of a referenced string, transitively) as FILE-NAME after an explicit '
